@@ -3,6 +3,7 @@ package brk
 import (
 	"encoding/hex"
 	"fmt"
+	"sort"
 	"time"
 
 	"github.com/256dpi/gomqtt/packet"
@@ -169,6 +170,7 @@ type BkCall struct {
 	C              int
 	CID            string
 	Enter, Commit  uint64
+	Start          uint64 // after the simulator's gate (== Enter when ungated)
 	Return         uint64
 	Err            error
 	P              packet.Generic
@@ -187,9 +189,13 @@ func BackendCalls(h []*Ev) []*BkCall {
 	for _, e := range h {
 		switch e.K {
 		case EvBkEnter:
-			c := &BkCall{Call: e.Call, C: e.C, CID: e.CID, Enter: e.Seq, P: e.P, M: e.M, Clean: e.B, EnterEv: e}
+			c := &BkCall{Call: e.Call, C: e.C, CID: e.CID, Enter: e.Seq, Start: e.Seq, P: e.P, M: e.M, Clean: e.B, EnterEv: e}
 			open[key(e)] = append(open[key(e)], c)
 			out = append(out, c)
+		case EvBkStart:
+			if l := open[key(e)]; len(l) > 0 {
+				l[len(l)-1].Start = e.Seq
+			}
 		case EvBkCommit:
 			if l := open[key(e)]; len(l) > 0 {
 				l[len(l)-1].Commit = e.Seq
@@ -208,4 +214,43 @@ func BackendCalls(h []*Ev) []*BkCall {
 		}
 	}
 	return out
+}
+
+// Eff is the moment a call takes effect inside the backend: its commit point
+// if one was observed (the acknowledgement runs inside the critical section),
+// else the moment it left the gate.
+func (c *BkCall) Eff() uint64 {
+	if c.Commit != 0 {
+		return c.Commit
+	}
+	return c.Start
+}
+
+// ByEffect sorts calls by Eff.
+func ByEffect(calls []*BkCall) []*BkCall {
+	out := append([]*BkCall{}, calls...)
+	sort.SliceStable(out, func(i, j int) bool { return out[i].Eff() < out[j].Eff() })
+	return out
+}
+
+// Overlaps reports whether the real executions of two calls overlap in time.
+func (c *BkCall) Overlaps(d *BkCall) bool {
+	cr, dr := c.Return, d.Return
+	if cr == 0 {
+		cr = ^uint64(0)
+	}
+	if dr == 0 {
+		dr = ^uint64(0)
+	}
+	return c.Start < dr && d.Start < cr
+}
+
+func clonePlan(p *core.Plan) *core.Plan {
+	q := *p
+	q.Items = append([]core.Item{}, p.Items...)
+	q.Knobs = map[string]int{}
+	for k, v := range p.Knobs {
+		q.Knobs[k] = v
+	}
+	return &q
 }
